@@ -135,7 +135,11 @@ theorem sign1_ok_calls (m : Sign1Msg) (ext : Option Bytes) (s : Signer)
         | ok tbs =>
           simp only [ht] at hok ⊢
           cases hsg : s.sign tbs with
-          | ok sig => exact ⟨tbs, rfl, ht⟩
+          | ok sig =>
+            simp only [hsg] at hok ⊢
+            split
+            · rename_i hz; simp [hz] at hok
+            · exact ⟨tbs, rfl, ht⟩
           | err e => simp [hsg] at hok
           | panic => simp [hsg] at hok
           | unmodelled => simp [hsg] at hok
